@@ -1,7 +1,7 @@
 use std::fmt::Debug;
 use std::ops::Add;
 
-use chrono::{Duration, NaiveDate, NaiveDateTime, NaiveTime, TimeDelta, TimeZone};
+use chrono::{Duration, NaiveDate, NaiveDateTime, NaiveTime, TimeDelta, TimeZone, Timelike};
 use opening_hours_syntax::rules::time::TimeEvent;
 
 use crate::localization::Coordinates;
@@ -138,10 +138,31 @@ where
     }
 
     fn datetime(&self, mut naive: NaiveDateTime) -> Self::DateTime {
+        let mut skipped = false;
+
         loop {
             if let Some(dt) = self.tz.from_local_datetime(&naive).latest() {
-                return dt;
+                if !skipped {
+                    return dt;
+                }
+
+                // The skipped period may not end on a whole minute (eg. when
+                // a zone switched from local mean time): get back to the
+                // first valid second, which is reached for the first time
+                // when the period ends, even if it is repeated later on.
+                let mut first = naive.with_nanosecond(0).unwrap_or(naive);
+
+                while let Some(prev) = first
+                    .checked_sub_signed(TimeDelta::seconds(1))
+                    .filter(|prev| self.tz.from_local_datetime(prev).latest().is_some())
+                {
+                    first = prev;
+                }
+
+                return self.tz.from_local_datetime(&first).earliest().unwrap_or(dt);
             }
+
+            skipped = true;
 
             naive = naive
                 .checked_add_signed(TimeDelta::minutes(1))
